@@ -287,6 +287,7 @@ func RunHistory(col *ev.Collector, depth int, dl ev.Deadline) (st Stats, complet
 							return st, false
 						}
 						var evs [][2]string
+						evs = append(evs, [2]string{"rebalance", ""})
 						for _, n := range s.live {
 							evs = append(evs, [2]string{"lose", n})
 						}
@@ -312,12 +313,16 @@ func RunHistory(col *ev.Collector, depth int, dl ev.Deadline) (st Stats, complet
 								live = append(live, e[1])
 							}
 							sort.Strings(live)
-							path := append(append([]string(nil), s.path...), e[0]+" "+e[1])
-							nl, ok := checkLayout(col, "v2", ns, live, parts, replica, s.layout, fmt.Sprintf("after %v from topology %s", path, topo))
-							st.BFSTransitions++
+							path := append(append([]string(nil), s.path...), strings.TrimSpace(e[0]+" "+e[1]))
 							layout := s.layout
-							if ok && nl != nil {
-								layout = nl
+							st.BFSTransitions++
+							if e[0] == "rebalance" {
+								// the layout is recomputed on demand (migrate / balance), not at every
+								// membership event: several losses/additions may have piled up
+								nl, ok := checkLayout(col, "v2", ns, live, parts, replica, s.layout, fmt.Sprintf("after %v from topology %s", path, topo))
+								if ok && nl != nil {
+									layout = nl
+								}
 							}
 							ns2 := state{live: live, layout: layout, path: path}
 							if k := key(ns2); !seen[k] {
